@@ -3,6 +3,7 @@ package solicit
 import (
 	"context"
 	"fmt"
+	"runtime"
 	"strings"
 	"sync"
 	"testing"
@@ -27,12 +28,19 @@ type c30pOp struct {
 	Op   string `json:"op"`
 	Side int    `json:"side"`
 	Pair int    `json:"pair"`
+	// Tpt (solicit): transport constraint: 0 none, 1 the first link's transport, 2 the second link's
+	Tpt int `json:"tpt,omitempty"`
 }
 
 type c30pCase struct {
 	// Keys are the identities of side 0 and side 1 (which of them is the lower peer id decides who opens streams)
 	Keys [2]int   `json:"keys"`
 	Ops  []c30pOp `json:"ops"`
+	// Links: 1, or 2 parallel links between the two peers over transports with different ids (both up from the start)
+	Links int `json:"links,omitempty"`
+	// OneP: the whole history runs on a single processor (GOMAXPROCS(1)): goroutines then run until they block, so that
+	// streams which arrive together are handed to the stream handlers back to back before anything they started runs
+	OneP bool `json:"one_p,omitempty"`
 }
 
 // pairs of (protocol, context); 0 and 1 concatenate to the same bytes
@@ -40,12 +48,12 @@ var c30pPairs = [][2]string{{"ab", "c"}, {"a", "bc"}, {"x", ""}}
 
 func genC30p(t *rapid.T) c30pCase {
 	k := rapid.Permutation([]int{0, 1, 2, 3}).Draw(t, "keys")
-	c := c30pCase{Keys: [2]int{k[0], k[1]}}
+	c := c30pCase{Keys: [2]int{k[0], k[1]}, Links: rapid.SampledFrom([]int{1, 1, 2}).Draw(t, "links"), OneP: rapid.IntRange(0, 2).Draw(t, "onep") == 0}
 	if rapid.IntRange(0, 2).Draw(t, "pattern") == 0 {
 		// one side solicits and withdraws before the other side asks for the same thing
 		s := rapid.IntRange(0, 1).Draw(t, "ps")
 		p := rapid.IntRange(0, 2).Draw(t, "pp")
-		c.Ops = append(c.Ops, c30pOp{"solicit", s, p}, c30pOp{"withdraw", s, p}, c30pOp{"solicit", 1 - s, p})
+		c.Ops = append(c.Ops, c30pOp{Op: "solicit", Side: s, Pair: p}, c30pOp{Op: "withdraw", Side: s, Pair: p}, c30pOp{Op: "solicit", Side: 1 - s, Pair: p})
 	}
 	n := rapid.IntRange(1, 7).Draw(t, "n")
 	for i := 0; i < n; i++ {
@@ -53,6 +61,7 @@ func genC30p(t *rapid.T) c30pCase {
 			Op:   rapid.SampledFrom([]string{"solicit", "solicit", "withdraw"}).Draw(t, "op"),
 			Side: rapid.IntRange(0, 1).Draw(t, "side"),
 			Pair: rapid.IntRange(0, 2).Draw(t, "pair"),
+			Tpt:  rapid.SampledFrom([]int{0, 0, 0, 1, 2}).Draw(t, "tpt"),
 		})
 	}
 	return c
@@ -63,10 +72,14 @@ type c30pSol struct {
 	h          *fakes.ResolverHandler
 	cancel     context.CancelFunc
 	done       chan struct{}
-	// want: 1 a stream value must arrive, 0 none may arrive, -1 not judged
+	// want: the number of stream values that must arrive (one per link on which it is matched), -1 not judged
 	want int
 	why  string
+	tpt  int
 }
+
+// admits: does the solicitation's transport constraint admit link l (0 or 1)?
+func (s *c30pSol) admits(l int) bool { return s.tpt == 0 || s.tpt == l+1 }
 
 func (s *c30pSol) values() int {
 	n := 0
@@ -82,9 +95,49 @@ func (s *c30pSol) values() int {
 func runC30Pair(c c30pCase, settle time.Duration) (msg string, classes []string, setupErr error) {
 	ctx, cancel := context.WithCancel(context.Background())
 	defer cancel()
+	if c.OneP {
+		defer runtime.GOMAXPROCS(runtime.GOMAXPROCS(1))
+	}
 	ids := [2]peer.ID{gen.PeerID(c.Keys[0]), gen.PeerID(c.Keys[1])}
+	// incoming streams of a side are handed to their handlers by one dispatcher, in arrival order
+	type arrival struct {
+		msh link.MountedStreamHandler
+		ms  link.MountedStream
+	}
+	var dispatch [2]chan arrival
+	for i := range dispatch {
+		dispatch[i] = make(chan arrival, 64)
+		go func(ch chan arrival) {
+			for {
+				select {
+				case a := <-ch:
+					// streams that arrive within a few milliseconds of each other are handed over back to back
+					time.Sleep(3 * time.Millisecond)
+					batch := []arrival{a}
+				collect:
+					for {
+						select {
+						case more := <-ch:
+							batch = append(batch, more)
+						default:
+							break collect
+						}
+					}
+					for _, x := range batch {
+						_ = x.msh.HandleMountedStream(ctx, x.ms)
+					}
+				case <-ctx.Done():
+					return
+				}
+			}
+		}(dispatch[i])
+	}
+	nlinks := c.Links
+	if nlinks < 1 {
+		nlinks = 1
+	}
 	var ctrls [2]*link_solicit_controller.Controller
-	var mls [2]*fakes.MountedLink
+	var mls [2][]*fakes.MountedLink
 	for i := range ctrls {
 		ctrl, err := link_solicit_controller.NewController(quietLog, &link_solicit_controller.Config{})
 		if err != nil {
@@ -92,7 +145,9 @@ func runC30Pair(c c30pCase, settle time.Duration) (msg string, classes []string,
 		}
 		ctrls[i] = ctrl
 		go func() { _ = ctrl.Execute(ctx) }()
-		mls[i] = &fakes.MountedLink{UUID: 700, TptID: linkTptID, Local: ids[i], Remote: ids[1-i]}
+		for l := 0; l < nlinks; l++ {
+			mls[i] = append(mls[i], &fakes.MountedLink{UUID: uint64(700 + l), TptID: uint64(linkTptID + l), Local: ids[i], Remote: ids[1-i]})
+		}
 	}
 	var smu sync.Mutex
 	var streams []*fakes.Stream
@@ -110,50 +165,60 @@ func runC30Pair(c c30pCase, settle time.Duration) (msg string, classes []string,
 		smu.Unlock()
 	}()
 	for i := range mls {
-		src, dst := i, 1-i
-		mls[src].OpenFn = func(octx context.Context, pid protocol.ID) (link.MountedStream, error) {
-			// the bus de-duplicates directives: a lookup that declares itself equivalent to one that is still alive (the
-			// transport controller keeps them for a second) is answered by that one's handler
-			dir := link.NewHandleMountedStream(pid, ids[dst], ids[src])
-			var msh link.MountedStreamHandler
-			smu.Lock()
-			for _, ld := range liveLookups[dst] {
-				if eq, ok := dir.(directive.DirectiveWithEquiv); ok && time.Since(ld.at) < time.Second && eq.IsEquivalent(ld.dir) {
-					msh = ld.msh
-					break
-				}
-			}
-			smu.Unlock()
-			if msh == nil {
-				res, err := ctrls[dst].HandleDirective(ctx, fakes.NewInstance(dir))
-				if err != nil || len(res) != 1 {
-					return nil, fmt.Errorf("remote side does not handle %s: %v", pid, err)
-				}
-				vh := fakes.NewResolverHandler()
-				_ = res[0].Resolve(ctx, vh)
-				for _, v := range vh.All() {
-					switch hv := v.(type) {
-					case link.MountedStreamHandler:
-						msh = hv
-					case []link.MountedStreamHandler:
-						msh = hv[0]
+		for l := 0; l < nlinks; l++ {
+			src, dst, l := i, 1-i, l
+			mls[src][l].OpenFn = func(octx context.Context, pid protocol.ID) (link.MountedStream, error) {
+				// the bus de-duplicates directives: a lookup that declares itself equivalent to one that is still alive (the
+				// transport controller keeps them for a second) is answered by that one's handler
+				dir := link.NewHandleMountedStream(pid, ids[dst], ids[src])
+				var msh link.MountedStreamHandler
+				smu.Lock()
+				for _, ld := range liveLookups[dst] {
+					if eq, ok := dir.(directive.DirectiveWithEquiv); ok && time.Since(ld.at) < time.Second && eq.IsEquivalent(ld.dir) {
+						msh = ld.msh
+						break
 					}
 				}
-				if msh == nil {
-					return nil, fmt.Errorf("no stream handler value for %s", pid)
-				}
-				smu.Lock()
-				liveLookups[dst] = append(liveLookups[dst], liveLookup{dir: dir, msh: msh, at: time.Now()})
 				smu.Unlock()
+				if msh == nil {
+					res, err := ctrls[dst].HandleDirective(ctx, fakes.NewInstance(dir))
+					if err != nil || len(res) != 1 {
+						return nil, fmt.Errorf("remote side does not handle %s: %v", pid, err)
+					}
+					vh := fakes.NewResolverHandler()
+					_ = res[0].Resolve(ctx, vh)
+					for _, v := range vh.All() {
+						switch hv := v.(type) {
+						case link.MountedStreamHandler:
+							msh = hv
+						case []link.MountedStreamHandler:
+							msh = hv[0]
+						}
+					}
+					if msh == nil {
+						return nil, fmt.Errorf("no stream handler value for %s", pid)
+					}
+					smu.Lock()
+					liveLookups[dst] = append(liveLookups[dst], liveLookup{dir: dir, msh: msh, at: time.Now()})
+					smu.Unlock()
+				}
+				a, b := fakes.NewStreamPair()
+				smu.Lock()
+				streams = append(streams, a, b)
+				smu.Unlock()
+				in := &fakes.MountedStream{Strm: b, Proto: pid, Peer: ids[src], Lnk: mls[dst][l]}
+				if pid == link_solicit_controller.ControlProtocolID {
+					// the control stream's handler runs for as long as the stream lives
+					go func() { _ = msh.HandleMountedStream(ctx, in) }()
+				} else {
+					select {
+					case dispatch[dst] <- arrival{msh: msh, ms: in}:
+					default:
+						return nil, fmt.Errorf("verif: dispatcher queue full")
+					}
+				}
+				return &fakes.MountedStream{Strm: a, Proto: pid, Peer: ids[dst], Lnk: mls[src][l]}, nil
 			}
-			a, b := fakes.NewStreamPair()
-			smu.Lock()
-			streams = append(streams, a, b)
-			smu.Unlock()
-			go func() {
-				_ = msh.HandleMountedStream(ctx, &fakes.MountedStream{Strm: b, Proto: pid, Peer: ids[src], Lnk: mls[dst]})
-			}()
-			return &fakes.MountedStream{Strm: a, Proto: pid, Peer: ids[dst], Lnk: mls[src]}, nil
 		}
 	}
 	for i := range ctrls {
@@ -165,29 +230,28 @@ func runC30Pair(c c30pCase, settle time.Duration) (msg string, classes []string,
 		if len(refs) != 1 {
 			return "", nil, fmt.Errorf("controller did not watch the link directive")
 		}
-		refs[0].Handler.HandleValueAdded(inst, directive.NewAttachedValue(1, link.MountedLink(mls[i])))
+		for l := 0; l < nlinks; l++ {
+			refs[0].Handler.HandleValueAdded(inst, directive.NewAttachedValue(uint32(l+1), link.MountedLink(mls[i][l])))
+		}
 	}
 	time.Sleep(settle)
 	live := [2]map[int]*c30pSol{{}, {}}
-	everMatched := map[int]bool{}
+	everMatched := map[[2]int]bool{} // (link, pair)
 	var all []*c30pSol
 	var hist []string
 	cls := map[string]bool{}
 	check := func(final bool) string {
 		for _, s := range all {
-			switch s.want {
-			case 1:
-				got := s.values()
-				if got == 0 && final {
-					ok := waitFor(5*time.Second, func() bool { return s.values() > 0 })
-					if !ok {
-						return fmt.Sprintf("side %d's solicitation of (%q,%q) got no stream although %s", s.side, c30pPairs[s.pair][0], c30pPairs[s.pair][1], s.why)
-					}
-				}
-			case 0:
-				if got := s.values(); got > 0 {
-					return fmt.Sprintf("side %d's solicitation of (%q,%q) was matched (%d stream value(s)) although %s", s.side, c30pPairs[s.pair][0], c30pPairs[s.pair][1], got, s.why)
-				}
+			if s.want < 0 {
+				continue
+			}
+			got := s.values()
+			if got < s.want && final {
+				waitFor(5*time.Second, func() bool { return s.values() >= s.want })
+				got = s.values()
+			}
+			if got > s.want || (final && got < s.want) {
+				return fmt.Sprintf("side %d's solicitation of (%q,%q) (transport constraint %d) has %d stream value(s), want %d: %s", s.side, c30pPairs[s.pair][0], c30pPairs[s.pair][1], s.tpt, got, s.want, s.why)
 			}
 		}
 		return ""
@@ -199,35 +263,58 @@ func runC30Pair(c c30pCase, settle time.Duration) (msg string, classes []string,
 				continue
 			}
 			p := c30pPairs[op.Pair]
-			dir := link_solicit.NewSolicitProtocol(protocol.ID(p[0]), []byte(p[1]), "", 0)
+			var tptID uint64
+			if op.Tpt != 0 && nlinks > 1 {
+				tptID = uint64(linkTptID + op.Tpt - 1)
+			}
+			dir := link_solicit.NewSolicitProtocol(protocol.ID(p[0]), []byte(p[1]), "", tptID)
 			res, err := ctrls[op.Side].HandleDirective(ctx, fakes.NewInstance(dir))
 			if err != nil || len(res) != 1 {
 				return "", nil, fmt.Errorf("solicit directive not handled: %v", err)
 			}
 			rctx, rcancel := context.WithCancel(ctx)
 			s := &c30pSol{side: op.Side, pair: op.Pair, h: fakes.NewResolverHandler(), cancel: rcancel, done: make(chan struct{})}
+			if tptID != 0 {
+				s.tpt = op.Tpt
+				cls["transport-constrained"] = true
+			}
 			go func() { defer close(s.done); _ = res[0].Resolve(rctx, s.h) }()
 			if !waitFor(5*time.Second, s.h.IsIdle) {
 				rcancel()
 				return "", nil, fmt.Errorf("solicitation did not register")
 			}
 			other := live[1-op.Side][op.Pair]
-			switch {
-			case everMatched[op.Pair]:
-				// a pair is matched once per link; what a later solicitation of it gets is not judged
-				s.want, s.why = -1, ""
-				if other != nil && other.want == 0 {
-					other.want = -1
+			s.why = "the other side has no solicitation with that protocol and context"
+			if other != nil {
+				s.why = fmt.Sprintf("the other side solicits the same protocol and context (transport constraint %d)", other.tpt)
+			}
+			for l := 0; l < nlinks; l++ {
+				if other == nil || !s.admits(l) || !other.admits(l) {
+					continue
 				}
-				cls["re-solicited-after-a-match"] = true
-			case other != nil:
-				s.want, s.why = 1, "the other side solicits the same protocol and context"
-				other.want, other.why = 1, s.why
-				everMatched[op.Pair] = true
+				if everMatched[[2]int{l, op.Pair}] {
+					// a pair is matched once per link; what a later solicitation of it gets is not judged
+					s.want = -1
+					if other.want >= 0 {
+						other.want = -1
+					}
+					cls["re-solicited-after-a-match"] = true
+					continue
+				}
+				everMatched[[2]int{l, op.Pair}] = true
+				if s.want >= 0 {
+					s.want++
+				}
+				if other.want >= 0 {
+					other.want++
+					other.why = fmt.Sprintf("the other side solicits the same protocol and context (transport constraint %d)", s.tpt)
+				}
 				cls["matched"] = true
-			default:
-				s.want = 0
-				s.why = "the other side has no solicitation with that protocol and context"
+				if nlinks > 1 {
+					cls["matched-on-parallel-links"] = true
+				}
+			}
+			if other == nil {
 				for q, o := range live[1-op.Side] {
 					if q != op.Pair && o != nil {
 						s.why += fmt.Sprintf(" (it solicits (%q,%q))", c30pPairs[q][0], c30pPairs[q][1])
@@ -257,8 +344,12 @@ func runC30Pair(c c30pCase, settle time.Duration) (msg string, classes []string,
 			if s.want == 0 {
 				cls["withdrew-unmatched"] = true
 			}
+			if s.want > 0 && s.values() < s.want {
+				// withdrawn before every expected stream arrived: how many it still gets is not judged
+				s.want = -1
+			}
 		}
-		hist = append(hist, fmt.Sprintf("%s(side%d,%q,%q)", op.Op, op.Side, c30pPairs[op.Pair][0], c30pPairs[op.Pair][1]))
+		hist = append(hist, fmt.Sprintf("%s(side%d,%q,%q,tpt%d)", op.Op, op.Side, c30pPairs[op.Pair][0], c30pPairs[op.Pair][1], op.Tpt))
 		time.Sleep(settle)
 		if m := check(false); m != "" {
 			return "after " + strings.Join(hist, " ") + ": " + m, nil, nil
@@ -267,6 +358,28 @@ func runC30Pair(c c30pCase, settle time.Duration) (msg string, classes []string,
 	time.Sleep(settle)
 	if m := check(true); m != "" {
 		return "after " + strings.Join(hist, " ") + ": " + m, nil, nil
+	}
+	// every value can be accepted, and no stream ends up with two owners
+	owners := map[any]string{}
+	for _, s := range all {
+		if s.want < 0 {
+			continue
+		}
+		for vi, v := range s.h.All() {
+			sv, ok := v.(link_solicit.SolicitMountedStream)
+			if !ok {
+				continue
+			}
+			ms, _, aerr := sv.AcceptMountedStream()
+			who := fmt.Sprintf("value %d of side %d's solicitation of (%q,%q)", vi, s.side, c30pPairs[s.pair][0], c30pPairs[s.pair][1])
+			if ms == nil {
+				return "after " + strings.Join(hist, " ") + ": " + who + " could not be accepted: " + fmt.Sprint(aerr), nil, nil
+			}
+			if prev, dup := owners[ms.GetStream()]; dup {
+				return "after " + strings.Join(hist, " ") + ": one stream was handed to two owners: " + prev + " and " + who, nil, nil
+			}
+			owners[ms.GetStream()] = who
+		}
 	}
 	for k := range cls {
 		classes = append(classes, k)
@@ -311,8 +424,8 @@ func checkC30p(c c30pCase) (o vstat.Outcome) {
 
 var specC30p = vstat.Spec[c30pCase]{
 	Property: "C30",
-	Rule: "two real solicitation controllers joined by one link (control and solicited streams are in-memory pipes handed to the other controller's stream handlers, stream-handler lookups that declare themselves equivalent to one made within the last second share its handler, as on the bus; either identity may be the lower peer id); histories of 1-10 solicit / withdraw steps per side over 3 (protocol, context) pairs, two of which concatenate to the same bytes, each step followed by a settling pause; a third of the histories start with one side soliciting and withdrawing a pair before the other side asks for it; " +
-		"oracle: a solicitation receives a stream value iff, while it is live, the other side has a live solicitation with the same protocol and context (first match of the pair on the link; later re-solicitations of an already matched pair are not judged); a disagreement is reported only if it shows again with 250 ms of settling per step; non-trivial = a match, a withdrawal, or a boundary-shifted remote pair",
+	Rule: "two real solicitation controllers joined by one link (control and solicited streams are in-memory pipes handed to the other controller's stream handlers, stream-handler lookups that declare themselves equivalent to one made within the last second share its handler, as on the bus; either identity may be the lower peer id; in a third of the cases two parallel links over transports with different ids, and solicitations may be constrained to one transport); histories of 1-10 solicit / withdraw steps per side over 3 (protocol, context) pairs, two of which concatenate to the same bytes, each step followed by a settling pause; a third of the histories start with one side soliciting and withdrawing a pair before the other side asks for it; " +
+		"oracle: a solicitation receives one stream value per link on which, while it is live, the other side has a live solicitation with the same protocol and context and both transport constraints admit the link; every value can be accepted and no stream gets two owners (first match of the pair on the link; later re-solicitations of an already matched pair are not judged); a disagreement is reported only if it shows again with 250 ms of settling per step; non-trivial = a match, a withdrawal, or a boundary-shifted remote pair",
 	Assumptions: []string{"announcements between the two controllers spread within 250 ms when re-checked"},
 	Gen:         genC30p,
 	Check:       checkC30p,
